@@ -1,5 +1,584 @@
 package engine
 
-// CmdCheck is implemented in check_impl.go (property driver).
+import (
+	"encoding/json"
+	"flag"
+	"fmt"
+	"os"
+	"os/exec"
+	"path/filepath"
+	"sort"
+	"strconv"
+	"strings"
+	"sync"
+	"time"
+)
 
-func CmdCheck(args []string) int { return 2 }
+// PropSpec is the per-property configuration in /verif/spec/properties.json.
+type PropSpec struct {
+	Title     string     `json:"title"`
+	Packages  []string   `json:"packages"`
+	Functions []FuncSpec `json:"functions"`
+	Bounded   []Bounded  `json:"bounded"`
+	Notes     []string   `json:"notes"`
+	Assumptions []string `json:"assumptions"`
+}
+
+type FuncSpec struct {
+	Pattern string `json:"pattern"`
+	// Mode: "contract" (functional contract + safety), "safety" (zero-annotation
+	// sweep), "locks" (lock balance / discipline)
+	Safety  *bool `json:"safety,omitempty"`
+	Locks   bool  `json:"locks,omitempty"`
+	Inline  int   `json:"inline,omitempty"`
+	JSON    bool  `json:"json,omitempty"`
+	NeedContract bool `json:"need_contract,omitempty"`
+}
+
+// Bounded is a labelled bounded stand-in (never counted as proved).
+type Bounded struct {
+	Name  string `json:"name"`
+	Cmd   string `json:"cmd"`
+	Bound string `json:"bound"`
+	Thorough bool `json:"thorough_only,omitempty"`
+}
+
+type knownFinding struct {
+	Prop, Obligation, What string
+}
+
+func loadKnown(path string) ([]knownFinding, []string) {
+	b, err := os.ReadFile(path)
+	if err != nil {
+		return nil, nil
+	}
+	var out []knownFinding
+	var fixed []string
+	for _, ln := range strings.Split(string(b), "\n") {
+		ln = strings.TrimSpace(ln)
+		if strings.HasPrefix(ln, "fixed:") {
+			fixed = append(fixed, ln)
+			continue
+		}
+		if !strings.HasPrefix(ln, "known:") {
+			continue
+		}
+		kf := knownFinding{}
+		rest := strings.TrimSpace(strings.TrimPrefix(ln, "known:"))
+		// property=<id> obligation=<name> what=<text>
+		if i := strings.Index(rest, " what="); i >= 0 {
+			kf.What = rest[i+6:]
+			rest = rest[:i]
+		}
+		if i := strings.Index(rest, " obligation="); i >= 0 {
+			kf.Obligation = strings.TrimSpace(rest[i+12:])
+			rest = rest[:i]
+		}
+		kf.Prop = strings.TrimPrefix(strings.TrimSpace(rest), "property=")
+		out = append(out, kf)
+	}
+	return out, fixed
+}
+
+type job struct {
+	fr   *FuncResult
+	spec FuncSpec
+}
+
+// CmdCheck implements `govc check -prop Cxx [-thorough]`.
+func CmdCheck(args []string) int {
+	fs := flag.NewFlagSet("check", flag.ExitOnError)
+	prop := fs.String("prop", "", "property id")
+	repo := fs.String("repo", "/repo", "repository")
+	verif := fs.String("verif", "/verif", "verif directory")
+	thorough := fs.Bool("thorough", false, "thorough tier")
+	workers := fs.Int("j", 16, "parallel solver processes")
+	verbose := fs.Bool("v", false, "verbose")
+	fs.Parse(args)
+	start := time.Now()
+	tier := "quick"
+	if *thorough || os.Getenv("VERIF_TIER") == "thorough" {
+		tier = "thorough"
+		*thorough = true
+	}
+	seed := 0
+	if s := os.Getenv("VERIF_SEED"); s != "" {
+		seed, _ = strconv.Atoi(s)
+	}
+	var specs map[string]*PropSpec
+	b, err := os.ReadFile(filepath.Join(*verif, "spec", "properties.json"))
+	if err != nil {
+		fmt.Fprintln(os.Stderr, err)
+		return 2
+	}
+	if err := json.Unmarshal(b, &specs); err != nil {
+		fmt.Fprintln(os.Stderr, "properties.json:", err)
+		return 2
+	}
+	ps := specs[*prop]
+	if ps == nil {
+		fmt.Fprintln(os.Stderr, "unknown property", *prop)
+		return 2
+	}
+	pk := ps.Packages
+	if len(pk) == 0 {
+		pk = []string{"./..."}
+	}
+	w, err := Load(*repo, pk...)
+	if err != nil {
+		fmt.Println("ERROR: cannot load /repo with tag verif:", err)
+		return 2
+	}
+	if err := w.LoadContracts(); err != nil {
+		fmt.Println("ERROR: contract files:", err)
+		return 2
+	}
+	loadS := time.Since(start).Seconds()
+	timeout := 8000
+	if *thorough {
+		timeout = 30000
+	}
+	workDir := filepath.Join(*verif, "work", *prop)
+	os.RemoveAll(workDir)
+	os.MkdirAll(workDir, 0o755)
+
+	// ---- generate ------------------------------------------------------------
+	var jobs []*job
+	var unbound []string
+	seen := map[string]bool{}
+	for _, f := range ps.Functions {
+		fns := w.FuncsMatching(f.Pattern)
+		if len(fns) == 0 {
+			unbound = append(unbound, "function "+f.Pattern+" not found")
+			continue
+		}
+		for _, fn := range fns {
+			if seen[ShortName(fn)] || len(fn.Blocks) == 0 {
+				continue
+			}
+			seen[ShortName(fn)] = true
+			if f.NeedContract && w.Contracts[ShortName(fn)] == nil {
+				unbound = append(unbound, "no contract for "+ShortName(fn))
+			}
+			jobs = append(jobs, &job{spec: f, fr: &FuncResult{Func: ShortName(fn)}})
+		}
+	}
+	var wg sync.WaitGroup
+	sem := make(chan struct{}, *workers)
+	for _, j := range jobs {
+		wg.Add(1)
+		sem <- struct{}{}
+		go func(j *job) {
+			defer wg.Done()
+			defer func() { <-sem }()
+			fn := w.Funcs[j.fr.Func]
+			safety := true
+			if j.spec.Safety != nil {
+				safety = *j.spec.Safety
+			}
+			opt := Options{Safety: safety, LockBalance: j.spec.Locks, Covers: true, AutoInline: j.spec.Inline, JSONShape: j.spec.JSON}
+			j.fr = Generate(w, fn, opt)
+		}(j)
+	}
+	wg.Wait()
+	genS := time.Since(start).Seconds() - loadS
+
+	// ---- solve: chunks of obligations over a worker pool ------------------------
+	type chunk struct {
+		j    *job
+		idxs map[int]bool
+		id   int
+	}
+	var chunks []*chunk
+	for _, j := range jobs {
+		if j.fr.GenErr != "" {
+			unbound = append(unbound, j.fr.Func+": "+j.fr.GenErr)
+			continue
+		}
+		for _, u := range j.fr.Unsupported {
+			unbound = append(unbound, j.fr.Func+": "+u)
+		}
+		n := len(j.fr.Obls)
+		per := 6
+		for s := 0; s < n; s += per {
+			c := &chunk{j: j, idxs: map[int]bool{}, id: s / per}
+			for i := s; i < s+per && i < n; i++ {
+				c.idxs[i] = true
+			}
+			chunks = append(chunks, c)
+		}
+	}
+	solveStart := time.Now()
+	var mu sync.Mutex
+	solverTime := map[string]int64{}
+	for _, c := range chunks {
+		wg.Add(1)
+		sem <- struct{}{}
+		go func(c *chunk) {
+			defer wg.Done()
+			defer func() { <-sem }()
+			solveChunk(c.j.fr, c.idxs, c.id, workDir, timeout, *thorough, &mu, solverTime)
+		}(c)
+	}
+	wg.Wait()
+	solveS := time.Since(solveStart).Seconds()
+
+	// ---- classify ----------------------------------------------------------------
+	known, fixed := loadKnown(filepath.Join(*verif, "known-findings.txt"))
+	_ = fixed
+	var all, failed, vacuous []*Obligation
+	discharged := 0
+	bySolver := map[string]int{}
+	for _, j := range jobs {
+		for _, o := range j.fr.Obls {
+			all = append(all, o)
+			if o.Cover {
+				if o.Result == "cover-unreachable" {
+					vacuous = append(vacuous, o)
+				}
+				continue
+			}
+			if o.Discharged() {
+				discharged++
+				bySolver[strings.Split(o.Solver, "+")[0]]++
+			} else {
+				failed = append(failed, o)
+			}
+		}
+	}
+	nObl := 0
+	for _, o := range all {
+		if !o.Cover {
+			nObl++
+		}
+	}
+	exit := 0
+	var violLines, knownLines []string
+	usedKnown := map[int]bool{}
+	replayDir := filepath.Join(*verif, "replay", *prop)
+	os.MkdirAll(replayDir, 0o755)
+	frOf := map[string]*FuncResult{}
+	for _, j := range jobs {
+		frOf[j.fr.Func] = j.fr
+	}
+	for _, o := range failed {
+		isKnown := false
+		for ki, k := range known {
+			if k.Prop == *prop && k.Obligation == o.Name {
+				isKnown = true
+				if !usedKnown[ki] {
+					usedKnown[ki] = true
+					knownLines = append(knownLines, fmt.Sprintf("KNOWN-FINDING: property=%s %s (%s)", *prop, k.What, o.Name))
+				}
+			}
+		}
+		if isKnown {
+			continue
+		}
+		// try to obtain a model and a replay
+		path := filepath.Join(replayDir, shortFile(o.Name)+".txt")
+		model, msolver := ModelFor(frOf[o.Func], o, SolveOptions{WorkDir: workDir, TimeoutMs: timeout})
+		rep := replayFor(w, *verif, *prop, frOf[o.Func], o, model)
+		var sb strings.Builder
+		fmt.Fprintf(&sb, "property: %s\nobligation: %s\nkind: %s\nfunction: %s\nposition: %s\nsolver verdict: %s (%s)\n", *prop, o.Name, o.Kind, o.Func, o.Pos, o.Result, o.Solver)
+		fmt.Fprintf(&sb, "negated obligation (SMT): %s\n", trunc(o.Assert, 2000))
+		if model != "" {
+			fmt.Fprintf(&sb, "\ncounterexample model (%s):\n%s\n", msolver, trunc(model, 6000))
+		} else {
+			fmt.Fprintf(&sb, "\nno model: solvers answered %s for the negated obligation\n", o.Result)
+		}
+		suffix := " no-failing-input-found"
+		if rep.Confirmed {
+			suffix = ""
+			fmt.Fprintf(&sb, "\nreplay on the real code CONFIRMED:\n%s\n", rep.Text)
+		} else if rep.Text != "" {
+			fmt.Fprintf(&sb, "\nreplay attempted, not confirmed:\n%s\n", rep.Text)
+		}
+		os.WriteFile(path, []byte(sb.String()), 0o644)
+		violLines = append(violLines, fmt.Sprintf("VIOLATION property=%s replay=%s obligation=%s%s", *prop, path, o.Name, suffix))
+		exit = 1
+	}
+	for _, o := range vacuous {
+		path := filepath.Join(replayDir, shortFile(o.Name)+".txt")
+		os.WriteFile(path, []byte(fmt.Sprintf("property: %s\nvacuity alarm: cover %s is unreachable: the assumptions (requires/invariants/axioms) before it are contradictory or the code became unreachable\n", *prop, o.Name)), 0o644)
+		fmt.Printf("VACUOUS %s\n", o.Name)
+		unbound = append(unbound, "vacuous: "+o.Name)
+	}
+
+	// ---- bounded stand-ins ---------------------------------------------------------
+	type bres struct {
+		Name, Bound, Cmd, Out string
+		OK          bool
+		Secs        float64
+	}
+	var bounded []bres
+	for _, bd := range ps.Bounded {
+		if bd.Thorough && !*thorough {
+			continue
+		}
+		t0 := time.Now()
+		cmd := exec.Command("bash", "-c", bd.Cmd)
+		cmd.Dir = *verif
+		cmd.Env = append(os.Environ(), "GOFLAGS=-mod=mod", "GOPROXY=off", "GOSUMDB=off", "GOTOOLCHAIN=local", "VERIF_PROP="+*prop, "VERIF_TIER="+tier, fmt.Sprintf("VERIF_SEED=%d", seed))
+		out, err := cmd.CombinedOutput()
+		br := bres{Name: bd.Name, Bound: bd.Bound, Cmd: bd.Cmd, OK: err == nil, Secs: time.Since(t0).Seconds(), Out: trunc(string(out), 1500)}
+		bounded = append(bounded, br)
+		if err != nil {
+			// a failing bounded stand-in is a violation found by execution of the real code
+			path := filepath.Join(replayDir, "bounded_"+sanitize(bd.Name)+".txt")
+			os.WriteFile(path, out, 0o644)
+			isKnown := false
+			for ki, k := range known {
+				if k.Prop == *prop && k.Obligation == "bounded:"+bd.Name {
+					isKnown = true
+					if !usedKnown[ki] {
+						usedKnown[ki] = true
+						knownLines = append(knownLines, fmt.Sprintf("KNOWN-FINDING: property=%s %s (bounded:%s)", *prop, k.What, bd.Name))
+					}
+				}
+			}
+			if !isKnown {
+				violLines = append(violLines, fmt.Sprintf("VIOLATION property=%s replay=%s obligation=bounded:%s", *prop, path, bd.Name))
+				exit = 1
+			}
+		}
+	}
+
+	// ---- evidence --------------------------------------------------------------------
+	var fnames []string
+	trusted := map[string]bool{}
+	defaults := map[string]bool{}
+	unverified := map[string]bool{}
+	inlined := map[string]bool{}
+	usedContracts := map[string]bool{}
+	jsonAssumed := false
+	perFunc := map[string]map[string]int{}
+	for _, j := range jobs {
+		fnames = append(fnames, j.fr.Func)
+		if j.fr.Ctx == nil {
+			continue
+		}
+		for k := range j.fr.Ctx.Trusted {
+			trusted[k] = true
+		}
+		for k := range j.fr.Ctx.Defaults {
+			defaults[k] = true
+		}
+		for k := range j.fr.Ctx.Unverified {
+			unverified[k] = true
+		}
+		for k := range j.fr.Ctx.Inlined {
+			inlined[k] = true
+		}
+		for k := range j.fr.Ctx.UsedContracts {
+			usedContracts[k] = true
+		}
+		if j.fr.Ctx.AssumedJSON {
+			jsonAssumed = true
+		}
+		m := map[string]int{}
+		for _, o := range j.fr.Obls {
+			if o.Cover {
+				m["covers"]++
+			} else {
+				m["obligations"]++
+				if o.Discharged() {
+					m["discharged"]++
+				}
+			}
+		}
+		perFunc[j.fr.Func] = m
+	}
+	sort.Strings(fnames)
+	var samples []map[string]interface{}
+	step := 1
+	if len(all) > 8 {
+		step = len(all) / 8
+	}
+	for i := 0; i < len(all); i += step {
+		o := all[i]
+		samples = append(samples, map[string]interface{}{"name": o.Name, "kind": o.Kind, "pos": o.Pos, "result": o.Result, "solver": o.Solver, "ms": o.TimeMs, "smt_chars": len(o.Assert)})
+	}
+	for _, o := range failed {
+		samples = append(samples, map[string]interface{}{"name": o.Name, "kind": o.Kind, "pos": o.Pos, "result": o.Result, "solver": o.Solver, "FAILED": true})
+	}
+	tb := []string{
+		"govc VC generator (this repository, /verif/govc) over go/packages + go/ssa (golang.org/x/tools v0.29.0)",
+		"SMT solvers z3 5.1.0 (z3-new), z3 4.8.12, cvc5 1.0 (first unsat wins; thorough: cross-checked)",
+		"memory model of DESIGN.md 2.3: mathematical integers (no overflow), float64 as Real, opaque strings, sequential execution (no concurrency)",
+	}
+	tb = append(tb, ps.Assumptions...)
+	for _, k := range sortedKeys(trusted) {
+		tb = append(tb, "trusted contract (body not verified): "+k)
+	}
+	if jsonAssumed {
+		tb = append(tb, "encoding/json.Unmarshal into interface{} yields nil|bool|float64|string|[]interface{}|map[string]interface{} (assumed shape)")
+	}
+	level := "proof"
+	cov := map[string]interface{}{
+		"obligations":  nObl,
+		"discharged":   discharged,
+		"checker_cmd":  fmt.Sprintf("govc check -prop %s (z3-new/z3/cvc5, %d ms per obligation)", *prop, timeout),
+		"trusted_base": tb,
+		"functions_under_contract": fnames,
+		"per_function":             perFunc,
+		"by_solver":                bySolver,
+		"solver_cpu_ms":            solverTime,
+		"covers":                   len(all) - nObl,
+		"vacuity_alarms":           len(vacuous),
+		"samples":                  samples,
+		"default_external_contracts (result arbitrary, no heap write, no panic)": sortedKeys(defaults),
+		"unverified_in_repo_callees (heap havocked at the call)":                sortedKeys(unverified),
+		"inlined_callees":   sortedKeys(inlined),
+		"callee_contracts_used": sortedKeys(usedContracts),
+		"bounded_standins (labelled bounded, not counted in discharged)": bounded,
+		"known_findings": knownLines,
+		"unbound":        unbound,
+		"timing_s":       map[string]float64{"load": loadS, "generate": genS, "solve": solveS},
+		"evaluations":         nObl,
+		"distinct_nontrivial": nObl,
+		"rule":                "one evaluation = one proof obligation generated from the SSA of a function under contract; all are distinct program points/clauses",
+	}
+	ev := map[string]interface{}{
+		"property_id": *prop, "tier": tier, "seed": seed, "level": level, "coverage": cov,
+		"assumptions": tb, "wall_s": time.Since(start).Seconds(), "violations": len(violLines),
+	}
+	os.MkdirAll(filepath.Join(*verif, "evidence"), 0o755)
+	eb, _ := json.MarshalIndent(ev, "", " ")
+	os.WriteFile(filepath.Join(*verif, "evidence", *prop+".json"), eb, 0o644)
+
+	// ---- report ------------------------------------------------------------------------
+	fmt.Printf("%s [%s]: %d functions, %d obligations, %d discharged, %d failed, %d covers (%d vacuous); load %.1fs gen %.1fs solve %.1fs\n",
+		*prop, tier, len(jobs), nObl, discharged, len(failed), len(all)-nObl, len(vacuous), loadS, genS, solveS)
+	if *verbose {
+		for _, o := range all {
+			fmt.Printf("  %-16s %-20s %s @%s\n", o.Result, o.Solver, o.Name, o.Pos)
+		}
+	}
+	for _, b := range bounded {
+		st := "ok"
+		if !b.OK {
+			st = "FAILED"
+		}
+		fmt.Printf("bounded stand-in %s [%s]: %s (%.1fs)\n", b.Name, b.Bound, st, b.Secs)
+	}
+	for _, l := range knownLines {
+		fmt.Println(l)
+	}
+	for _, l := range violLines {
+		fmt.Println(l)
+	}
+	if exit == 0 && len(unbound) > 0 {
+		for _, u := range unbound {
+			fmt.Println("CONTRACT-UNBOUND", u)
+		}
+		return 2
+	}
+	return exit
+}
+
+func sortedKeys(m map[string]bool) []string {
+	out := make([]string, 0, len(m))
+	for k := range m {
+		out = append(out, k)
+	}
+	sort.Strings(out)
+	return out
+}
+
+// solveChunk discharges a subset of a function's obligations.
+func solveChunk(fr *FuncResult, idxs map[int]bool, id int, workDir string, timeoutMs int, cross bool, mu *sync.Mutex, solverTime map[string]int64) {
+	base := filepath.Join(workDir, fmt.Sprintf("%s.c%d", sanitize(fr.Func), id))
+	var order []int
+	for i := range fr.Obls {
+		if idxs[i] {
+			order = append(order, i)
+		}
+	}
+	pending := map[int]bool{}
+	covers := map[int]bool{}
+	for _, i := range order {
+		if fr.Obls[i].Cover {
+			covers[i] = true
+		} else {
+			pending[i] = true
+		}
+	}
+	if len(covers) > 0 {
+		f := base + ".covers.smt2"
+		os.WriteFile(f, []byte(fr.Ctx.Script(covers)), 0o644)
+		var ci []int
+		for _, i := range order {
+			if covers[i] {
+				ci = append(ci, i)
+			}
+		}
+		res, dur := runSolver(Solvers[0], f, len(ci), 300)
+		for k, i := range ci {
+			o := fr.Obls[i]
+			o.Solver = Solvers[0].Name
+			o.TimeMs = dur.Milliseconds() / int64(len(ci))
+			if res[k] == "unsat" {
+				o.Result = "cover-unreachable"
+			} else {
+				o.Result = "cover-ok"
+			}
+		}
+	}
+	for si, s := range Solvers {
+		if len(pending) == 0 && !(cross && si == 1) {
+			break
+		}
+		var run []int
+		sel := map[int]bool{}
+		for _, i := range order {
+			if covers[i] {
+				continue
+			}
+			if pending[i] || (cross && si == 1) {
+				run = append(run, i)
+				sel[i] = true
+			}
+		}
+		if len(run) == 0 {
+			continue
+		}
+		f := fmt.Sprintf("%s.s%d.smt2", base, si)
+		os.WriteFile(f, []byte(fr.Ctx.Script(sel)), 0o644)
+		to := timeoutMs
+		if si > 0 && !cross {
+			to = timeoutMs / 2
+		}
+		res, dur := runSolver(s, f, len(run), to)
+		mu.Lock()
+		solverTime[s.Name] += dur.Milliseconds()
+		mu.Unlock()
+		for k, i := range run {
+			o := fr.Obls[i]
+			o.TimeMs += dur.Milliseconds() / int64(len(run))
+			if res[k] == "unsat" {
+				if o.Result == "unsat" {
+					o.Solver += "+" + s.Name
+				} else {
+					o.Result, o.Solver = "unsat", s.Name
+				}
+				delete(pending, i)
+			} else if o.Result != "unsat" && (o.Result == "" || res[k] == "sat") {
+				o.Result, o.Solver = res[k], s.Name
+			}
+		}
+	}
+}
+
+func shortFile(name string) string {
+	h := uint32(2166136261)
+	for i := 0; i < len(name); i++ {
+		h ^= uint32(name[i])
+		h *= 16777619
+	}
+	base := name
+	if i := strings.Index(base, "["); i > 0 {
+		base = base[:i]
+	}
+	return fmt.Sprintf("%s_%08x", sanitize(base), h)
+}
